@@ -426,6 +426,13 @@ def run(prog, check):
                          'solver.MaxTime = 0 with a block that says MaxTime = 5: every series must have exactly one point')
     check.ob('C10.R7', '%s::solver-horizon-override-present' % sw.f.cls.key, n7 >= 1, sw.f.cls.module.rel,
              'the solver-level horizon is applied to the parsed block' if n7 else 'a horizon set on the solver is never applied', 'solver.MaxTime = 3')
+    # ---- R8: every exogenous definition reaches its variable (the last one supplied wins) ----------------------
+    from ._common import exogenous_applied
+    pf_, okx_, whyx_ = exogenous_applied(prog)
+    check.saw(pf_)
+    check.ob('C10.R8', '%s::exogenous-entries-applied' % pf_.key, okx_, pf_.where, whyx_,
+             'AddExogenous / SetExogenous called twice for one variable: the second path is the one to be used')
+    check.floor('C10.R8', 1)
     check.floor('C10.R7', 2)
     check.floor('C10.R1', 6)
     check.floor('C10.R2', 5)
